@@ -554,6 +554,12 @@ func (r *router) doPrefetch(q *dnsmsg.Question, remoteAddr netip.Addr, u *upstre
 		return
 	}
 	r.prefetchTotal.Inc()
+	if resp.RCode != dnsmsg.RCodeSuccess {
+		// The entry that triggered this refresh is still alive, maybe only
+		// in redis (the memory cache is smaller). The memory cache would take
+		// the error as a new entry and hide the live one.
+		return
+	}
 	r.cache.Store(q, remoteAddr, resp)
 }
 
